@@ -72,21 +72,23 @@ int main(int argc, char** argv) {
     tbb::global_control gc(tbb::global_control::max_allowed_parallelism, 16);
     bool wedgeable = a.num("wedgeable", 1) != 0;   // class P: 0 = only scenarios with fewer blocked pushers than capacity (cannot reach the known wedge)
     Rng top(mix(R.seed, 0xC09));
+    // never destroyed: the pool threads (and the per-thread hook records they own) stay alive until the process exits,
+    // so LeakSanitizer sees them as reachable
+    static Engine* engine = new Engine; Engine& E = *engine; E.light = light;
     // The verification hooks compiled into libtbb must be live (the sleep registry and the abort scenarios depend on them). If a
     // libtbb without hooks was loaded (e.g. the system library because the build directory vanished) nothing can be judged.
     {
         tbb::concurrent_bounded_queue<long> q0; q0.set_capacity(1); q0.push(1);
-        std::thread t0([&] { q0.push(2); });
+        E.pool.start(1, [&](int) { q0.push(2); });
         double t_end = now_s() + 5.0;
         while (hook_count(56) == 0 && now_s() < t_end) sched_yield();
         bool live = hook_count(56) > 0 && hook_count(50) > 0;
-        long v; q0.pop(v); t0.join();
+        long v; q0.pop(v); E.pool.wait();
         if (!live) { fprintf(stderr, "[c09] the loaded libtbb has no verification hooks (wrong library?)\n"); R.stat("no_hooks_in_libtbb"); R.write(); return 2; }
     }
     WatchdogCfg wc;
     watchdog_start(wc, on_hang);
     install_observer();
-    Engine E; E.light = light;
     LinStats ls;
     for (long k = 0; k < cases; k++) {
         char cls;
